@@ -9,8 +9,9 @@ import CanvasGen.GaussLegendreC09
   length function (theorems: additivity);
 * `Float` instances of the segment lengths, transcribed from the source: `math.Hypot` (the amd64
   routine: `max*sqrt(1+(min/max)^2)`), `quadraticBezierLength` (closed form, after e51fcfc/da104aa),
-  `cubicBezierLength` (split at the inflection points, 7-point Gauss–Legendre of the speed),
-  `ellipseLength` (5-point Gauss–Legendre of the speed over the whole extent).  The quadrature rules are
+  `cubicBezierLength` (split at the inflection points, 7-point Gauss–Legendre of the speed over two half
+  intervals per piece, 8606e8f), `ellipseLength` (5-point Gauss–Legendre of the speed over pieces of at
+  most 90 degrees, 0b071bc).  The quadrature rules are
   evaluated from the tables extracted from util.go on every check (`GenC09.gl5F`, `gl7F`) with the
   grouping of equal weights the source uses.
 Not modelled here (passed in from the real code by the harness): the inflection parameters of a cubic
@@ -90,9 +91,10 @@ def quadLenF (p0 p1 p2 : Pt Float) : Float :=
     let length := if 0.0 < num && 0.0 < den then length + (4.0 * C * A - B * B) * Float.log (num / den) else length
     length / (4.0 * A32)
 
-/-- 7-point rule of the speed of one cubic -/
+/-- 7-point rule of the speed of one cubic over the two half intervals (8606e8f) -/
 def cubeSpeedGL (p0 p1 p2 p3 : Pt Float) : Float :=
-  glGrouped GenC09.gl7F (fun t => ptLen (GenF.cubicBezierDeriv p0 p1 p2 p3 t)) 0.0 1.0
+  let speed := fun t => ptLen (GenF.cubicBezierDeriv p0 p1 p2 p3 t)
+  glGrouped GenC09.gl7F speed 0.0 0.5 + glGrouped GenC09.gl7F speed 0.5 1.0
 
 /-- `cubicBezierLength` for the inflection parameters `t1, t2` (NaN when absent) -/
 def cubeLenF (p0 p1 p2 p3 : Pt Float) (t1 t2 : Float) : Float :=
@@ -119,11 +121,23 @@ def ellipseSpeed (rx ry theta : Float) : Float :=
   let dy := -rx * sintheta * sinphi + ry * costheta * cosphi
   hypotGo dx dy
 
-/-- `ellipseLength` (path_util.go:54): one 5-point rule over the whole extent -/
+/-- number of pieces `ellipseLength` integrates over (0b071bc): at most 90 degrees each, proportionally
+shorter when the axis ratio exceeds 4, capped at 1024 -/
+def ellipsePieces (rx ry lo hi : Float) : Float :=
+  let ratio := goMax rx ry / goMin rx ry
+  goMin (Float.ceil ((hi - lo) / (goPi / 2.0) * goMax 1.0 (ratio / 4.0))) 1024.0
+
+/-- `ellipseLength` (path_util.go:54): the 5-point rule of the speed over `n` equal pieces.
+The loop `for i := 0.0; i < n; i++` runs at most 1024 times. -/
 def ellipseLenF (rx ry theta1 theta2 : Float) : Float :=
   let lo := if theta2 < theta1 then theta2 else theta1
   let hi := if theta2 < theta1 then theta1 else theta2
-  glGrouped GenC09.gl5F (ellipseSpeed rx ry) lo hi
+  let n := ellipsePieces rx ry lo hi
+  (List.range 1024).foldl (fun (acc : Float) k =>
+      let i := k.toFloat
+      if i < n then
+        acc + glGrouped GenC09.gl5F (ellipseSpeed rx ry) (lo + (hi - lo) * i / n) (lo + (hi - lo) * (i + 1.0) / n)
+      else acc) 0.0
 
 /-- per drawing record: what the harness passes in -/
 structure LenOracle where
